@@ -7,11 +7,16 @@
                            plain = the connection was served as plaintext, cert = index of the context whose
                            certificate the client saw (0 = none), ok = handshake completed on both sides and
                            application data flowed
-     up{cfg, cert, ok, upplain}   a real clientContextManager handshake towards a stock crypto/tls server;
+     upd{pos, field, val, path}   a runtime update of one field of context pos was pushed through `path`
+                           (sds-push: SetSecret on the running provider; config-update: listener TLS update / new manager
+                           with the same name, which also re-configures the SDS providers in place)
+     up{cfg, upds, cert, ok, upplain}   a real clientContextManager handshake towards a stock crypto/tls server;
                            upplain = the upstream received a plaintext connection instead *)
 EXTENDS TLSSelect, VTrace
 
-tvars == <<vars, l>>
+VARIABLE hist    \* [last: field of the last update since mgr ("-" = none), path, prev: the context lists in force before it]
+tvars == <<vars, l, hist>>
+NoHist == [last |-> "-", path |-> "-", prev |-> {}]
 
 ToSet(s) == { s[k] : k \in DOMAIN s }
 CtxOf(j) == [names |-> ToSet(j.names), sn |-> j.sn, alpn |-> ToSet(j.alpn), ready |-> j.ready,
@@ -24,12 +29,22 @@ SniClass(h) == IF h.sni = <<>> THEN "none"
                ELSE IF Len(h.sni) = 1 /\ h.sni[1] \in AlpnWords THEN "alpn-token" ELSE "name"
 B(b) == IF b THEN "1" ELSE "0"
 
-TraceInit == /\ l = 1 /\ cs = [side |-> "srv", ctxs |-> <<>>, insp |-> FALSE]
+UpdOf(j) == [pos |-> j.pos, field |-> j.field, val |-> IF j.field \in {"names", "alpn"} THEN ToSet(j.val) ELSE j.val]
+
+TraceInit == /\ l = 1 /\ cs = [side |-> "srv", ctxs |-> <<>>, insp |-> FALSE] /\ hist = NoHist
+             /\ live = <<>> /\ todo = <<>>
              /\ pc = "done" /\ i = 0 /\ dflt = 0 /\ afirst = 0 /\ chosen = 0 /\ served = "-" /\ result = "-"
 
 TMgr == /\ IsEvent("mgr")
-        /\ cs' = [side |-> "srv", ctxs |-> CtxsOf(Ev.ctxs), insp |-> Ev.insp]
-        /\ UNCHANGED <<pc, i, dflt, afirst, chosen, served, result>>
+        /\ cs' = [side |-> "srv", ctxs |-> CtxsOf(Ev.ctxs), insp |-> Ev.insp] /\ hist' = NoHist
+        /\ UNCHANGED <<live, todo, pc, i, dflt, afirst, chosen, served, result>>
+
+(* the policy in force is the last pushed one: from here on handshakes are judged by the updated list *)
+TUpd == /\ IsEvent("upd")
+        /\ Ev.pos \in 1..Len(cs.ctxs)
+        /\ cs' = [cs EXCEPT !.ctxs = ApplyUpd(@, UpdOf(Ev))]
+        /\ hist' = [last |-> Ev.field, path |-> Ev.path, prev |-> hist.prev \cup {cs.ctxs}]
+        /\ UNCHANGED <<live, todo, pc, i, dflt, afirst, chosen, served, result>>
 
 (* a plaintext client *)
 PlainChecks(e) ==
@@ -57,6 +72,21 @@ SelKind(cl, h, k) ==
     ELSE "select:want-" \o Rule(cl, h) \o ":got-" \o g \o ":sni-" \o SniClass(h)
 
 (* a TLS client *)
+SelGood(cl, e) ==
+  LET h == HelloOf(e) want == Pick(cl, h) IN
+    /\ e.cert \in 0..Len(cl)
+    /\ e.cert \in 1..Len(cl) => cl[e.cert].ready
+    /\ IF want = 0 THEN ~e.ok /\ e.cert = 0 ELSE e.cert = want
+AuthGood(cl, e) ==
+  IF e.cert \in 1..Len(cl)
+  THEN LET x == AuthExpect(cl[e.cert], e.peer) IN x = "any" \/ (e.ok <=> x = "ok")
+  ELSE ~e.ok
+(* after an update the failing class is named by the updated field and the path it took; if the observation is what
+   a configuration in force BEFORE the update prescribes, the update did not take effect *)
+K(kind, e) == IF hist.last = "-" THEN kind
+              ELSE "update:" \o hist.last \o ":" \o hist.path \o ":" \o
+                   (IF \E pl \in hist.prev : SelGood(pl, e) /\ AuthGood(pl, e) THEN "stale-context-in-force" ELSE kind)
+
 TlsChecks(e) ==
   LET h == HelloOf(e)
       want == Pick(cs.ctxs, h)
@@ -64,32 +94,41 @@ TlsChecks(e) ==
      /\ IF e.cert \in 1..Len(cs.ctxs) /\ ~cs.ctxs[e.cert].ready
         THEN Expect(FALSE, "select:not-ready-context-presented")
         ELSE IF want = 0
-             THEN Expect(~e.ok /\ e.cert = 0, "select:handshake-without-ready-context")
-             ELSE Expect(e.cert = want, SelKind(cs.ctxs, h, e.cert))
+             THEN Expect(~e.ok /\ e.cert = 0, K("select:handshake-without-ready-context", e))
+             ELSE Expect(e.cert = want, K(SelKind(cs.ctxs, h, e.cert), e))
      (* client authentication under the context that answered *)
      /\ IF e.cert \in 1..Len(cs.ctxs)
         THEN LET c == cs.ctxs[e.cert]
                  x == AuthExpect(c, h.peer)
              IN Expect(x = "any" \/ (e.ok <=> x = "ok"),
-                       "auth:" \o Mode(c) \o ":peer-" \o h.peer \o ":want-" \o x \o ":tls" \o ToString(h.vers))
+                       K("auth:" \o Mode(c) \o ":peer-" \o h.peer \o ":want-" \o x \o ":tls" \o ToString(h.vers), e))
         ELSE Expect(~e.ok, "select:ok-without-certificate")
 
 THs == /\ IsEvent("hs")
        /\ IF Ev.first = "plain" THEN PlainChecks(Ev) ELSE TlsChecks(Ev)
-       /\ UNCHANGED vars
+       /\ UNCHANGED <<vars, hist>>
 
 UpCfgOf(j) == [sn |-> j.sn, skip |-> j.skip, ca |-> j.ca]
 UpCertOf(j) == [names |-> ToSet(j.names), ca |-> j.ca, expired |-> j.expired]
+UpKind(cfg, cert, x) ==
+  "upstream:skip-" \o B(cfg.skip) \o ":chain-" \o (IF UpChainOK(cfg, cert) THEN "ok" ELSE "bad")
+  \o ":name-" \o (IF cfg.sn = <<>> THEN "none" ELSE IF cfg.sn \in cert.names THEN "match" ELSE "mismatch") \o ":want-" \o x
+UpGood(cfg, cert, ok) == LET x == UpExpect(cfg, cert) IN x = "any" \/ (ok <=> x = "ok")
 TUp == /\ IsEvent("up")
-       /\ LET cfg == UpCfgOf(Ev.cfg) cert == UpCertOf(Ev.cert) x == UpExpect(cfg, cert) IN
-            Expect(x = "any" \/ (Ev.ok <=> x = "ok"),
-                   "upstream:skip-" \o B(cfg.skip) \o ":chain-" \o (IF UpChainOK(cfg, cert) THEN "ok" ELSE "bad")
-                   \o ":name-" \o (IF cfg.sn = <<>> THEN "none" ELSE IF cfg.sn \in cert.names THEN "match" ELSE "mismatch")
-                   \o ":want-" \o x)
+       /\ LET us == [k \in DOMAIN Ev.upds |-> UpdOf(Ev.upds[k])]
+              n == Len(us)
+              cfg0 == UpCfgOf(Ev.cfg)
+              cfg == ApplyAll(cfg0, us)                     \* the last pushed cluster tls config decides
+              cert == UpCertOf(Ev.cert)
+              kind == UpKind(cfg, cert, UpExpect(cfg, cert)) IN
+            Expect(UpGood(cfg, cert, Ev.ok),
+                   IF n = 0 THEN kind
+                   ELSE "update:" \o us[n].field \o ":" \o Ev.upds[n].path \o ":" \o
+                        (IF \E m \in 0..(n - 1) : UpGood(ApplyAll(cfg0, SubSeq(us, 1, m)), cert, Ev.ok) THEN "stale-context-in-force" ELSE kind))
        (* no case configures fall_back: the upstream must never be spoken to in plaintext *)
        /\ Expect(~Ev.upplain, "upstream:plaintext-sent-to-upstream")
-       /\ UNCHANGED vars
+       /\ UNCHANGED <<vars, hist>>
 
-TraceNext == TMgr \/ THs \/ TUp
+TraceNext == TMgr \/ TUpd \/ THs \/ TUp
 TraceSpec == TraceInit /\ [][TraceNext]_tvars
 ====
